@@ -42,13 +42,17 @@ F4_SIG = "StopAsync:nil-cancel-after-lost-New->Terminated-race"
 GATED = {
     "MC_nilcancel": dict(nc=2, nl=0, wrun=[], wterm=[]),
     "MC_gated_core": dict(nc=2, nl=1, wrun=[], wterm=[]),
+    "MC_gated_core3": dict(nc=2, nl=1, wrun=[], wterm=[]),
+    "MC_gated_modes": dict(nc=1, nl=0, wrun=[], wterm=[]),
+    "MC_gated_nilfn5": dict(nc=1, nl=1, wrun=[], wterm=[]),
     "MC_gated_wait": dict(nc=1, nl=0, wrun=[1], wterm=[2]),
     "MC_gated_nilfn": dict(nc=1, nl=1, wrun=[], wterm=[]),
     "MC_gated_lw": dict(nc=2, nl=1, wrun=[1], wterm=[2]),
     "MC_gated_l2": dict(nc=1, nl=2, wrun=[], wterm=[]),
 }
 MGATED = {
-    "MC_mgated_cover": dict(ns=2, nml=1, wh=[1], ws=[2]),
+    "MC_mgated_cover": dict(ns=2, nml=0, wh=[], ws=[]),
+    "MC_mgated_cover1": dict(ns=2, nml=1, wh=[], ws=[]),
     "MC_mgated_sim": dict(ns=2, nml=1, wh=[1], ws=[2]),
     "MC_mgated_sim3": dict(ns=3, nml=2, wh=[1], ws=[2]),
 }
@@ -83,21 +87,26 @@ def run(ctx):
     ctx.exhaustive = True
     jobs = []
 
-    # ---- 1. F4: the specification of StopAsync as it is in the code violates NoNilCancelCall (expected on the specification)
-    r = ctx.tlc("services", "ServiceGated", cfg="MC_nilcancel.cfg", timeout=300, workers=1, count=False)
-    if r.timed_out or r.error:
-        incon("MC_nilcancel: %s" % (r.error or "timeout"))
-    if r.violated != "NoNilCancelCallEmit" or r.emitted == 0:
-        incon("MC_nilcancel: the unguarded StopAsync model is expected to violate NoNilCancelCall; TLC said %r" % r.violated)
-    # keep the first counterexample only
-    first = open(r.out_path).readline()
-    cex = ctx.path("f4_cex.ndjson")
-    open(cex, "w").write(first)
-    ctx.extra["f4_spec_counterexample"] = [s[0] + ":" + str(s[1]) for s in json.loads(first)["h"][1:]]
-    jobs.append(dict(kind="service", name="MC_nilcancel(counterexample of NoNilCancelCall)", **{"in": cex}, **GATED["MC_nilcancel"]))
+    stages = set((os.environ.get("VERIF_C17_STAGES") or "replay,model,record").split(","))   # development aid
+
+    # ---- 1. F4 (thorough tier: explicit TLC run): the specification of StopAsync as it is in the pinned code violates
+    #         NoNilCancelCall; the counterexample is replayed below. The quick tier takes the same witness from the
+    #         behaviours of MC_gated_core (a printed state with nilCalls > 0 is a counterexample of the invariant).
+    if not quick:
+        r = ctx.tlc("services", "ServiceGated", cfg="MC_nilcancel.cfg", timeout=300, workers=1, count=False)
+        if r.timed_out or r.error:
+            incon("MC_nilcancel: %s" % (r.error or "timeout"))
+        if r.violated != "NoNilCancelCallEmit" or r.emitted == 0:
+            incon("MC_nilcancel: the unguarded StopAsync model is expected to violate NoNilCancelCall; TLC said %r" % r.violated)
+        first = open(r.out_path).readline()      # keep the first counterexample only
+        cex = ctx.path("f4_cex.ndjson")
+        open(cex, "w").write(first)
+        ctx.extra["f4_spec_counterexample"] = [s[0] + ":" + str(s[1]) for s in json.loads(first)["h"][1:]]
+        jobs.append(dict(kind="service", name="MC_nilcancel(counterexample of NoNilCancelCall)", **{"in": cex}, **GATED["MC_nilcancel"]))
 
     # ---- 2. behaviours of the gated graphs (the invariants of Service.tla are checked on them as well)
-    gated = ["MC_gated_core", "MC_gated_wait", "MC_gated_nilfn"] + ([] if quick else ["MC_gated_lw", "MC_gated_l2"])
+    gated = ["MC_gated_core", "MC_gated_modes", "MC_gated_wait", "MC_gated_nilfn"] if quick else \
+            ["MC_gated_core3", "MC_gated_wait", "MC_gated_nilfn5", "MC_gated_lw", "MC_gated_l2"]
     emitted = {}
     for cfg in gated:
         r = ctx.tlc("services", "ServiceGated", cfg=cfg + ".cfg", timeout=3000, workers=W)
@@ -105,12 +114,23 @@ def run(ctx):
         if r.emitted == 0:
             incon("%s emitted nothing" % cfg)
         emitted[cfg] = r.emitted
-        if os.environ.get("VERIF_C17_CORRUPT") == "obs" and cfg == "MC_gated_core":
+        if "f4_spec_counterexample" not in ctx.extra and cfg.startswith("MC_gated_core"):
+            best = None
+            for ln in open(r.out_path):
+                if '"pan":0' in ln:
+                    continue
+                o = json.loads(ln)
+                if best is None or len(o["h"]) < len(best["h"]):
+                    best = o
+            if best is None:
+                incon("%s: the unguarded StopAsync model is expected to reach a call of the nil serviceCancel" % cfg)
+            ctx.extra["f4_spec_counterexample"] = [s[0] + ":" + str(s[1]) for s in best["h"][1:]]
+        if os.environ.get("VERIF_C17_CORRUPT") == "obs" and cfg in ("MC_gated_core", "MC_gated_core3"):
             corrupt_one_observation(r.out_path)
         jobs.append(dict(kind="service", name=cfg, **{"in": r.out_path}, **GATED[cfg]))
 
     # manager behaviours: exhaustive cover for a small manager, simulation for larger ones
-    mg = [("MC_mgated_cover", None, None)] + [("MC_mgated_sim", "num=%d" % (40 if quick else 400), 40)]
+    mg = [("MC_mgated_cover" if quick else "MC_mgated_cover1", None, None), ("MC_mgated_sim", "num=%d" % (40 if quick else 400), 40)]
     if not quick:
         mg.append(("MC_mgated_sim3", "num=300", 60))
     for cfg, sim, depth in mg:
@@ -141,15 +161,21 @@ def run(ctx):
     ctx.extra["behaviours_emitted"] = emitted
     subst = {"@@GUARD@@": guard, "@@NONIL@@": "" if panics else "NoNilCancelCall"}
 
+    if "model" not in stages:
+        ctx.inconclusive_note("development run: stages %s only" % sorted(stages))
+        return "model_checking"
+
     # ---- 4. the property itself: exhaustive model checking at the granularity of the critical sections
-    fine = [("Service", "MC_svc_quick"), ("Service", "MC_svc_wait")] if quick else \
-           [("Service", "MC_svc_quick"), ("Service", "MC_svc_wait"), ("Service", "MC_svc_lw"), ("Service", "MC_svc_full"),
-            ("Service", "MC_svc_live")]
-    for mod, cfg in fine:
-        r = ctx.tlc("services", mod, cfg=cfg + ".cfg", timeout=3000, workers=W, subst=subst, coverage=(not quick and cfg == "MC_svc_lw"))
+    fine = ["MC_svc_quick", "MC_svc_wait"] if quick else ["MC_svc_quick", "MC_svc_wait", "MC_svc_lw", "MC_svc_full", "MC_svc_live"]
+    never = None
+    for cfg in fine:
+        cov = (not quick) and cfg in ("MC_svc_quick", "MC_svc_wait")
+        r = ctx.tlc("services", "Service", cfg=cfg + ".cfg", timeout=3000, workers=W, subst=subst, coverage=cov)
         ctx.require_tlc_ok(r, cfg)
-        if r.coverage_zero:
-            incon("%s: actions never taken: %s" % (cfg, r.coverage_zero[:6]))
+        if cov:     # vacuity guard: every action of Service.tla is taken in at least one of the two configurations
+            never = set(r.coverage_zero) if never is None else never & set(r.coverage_zero)
+    if never:
+        incon("Service.tla: actions never taken: %s" % sorted(never)[:8])
     mcfgs = ["MC_mgr_quick"] if quick else ["MC_mgr_quick", "MC_mgr2", "MC_mgr_live"]
     for cfg in mcfgs:
         r = ctx.tlc("services", "Manager", cfg=cfg + ".cfg", timeout=3000, workers=W, coverage=(cfg == "MC_mgr2"))
@@ -162,7 +188,7 @@ def run(ctx):
     # soundness of the binding: AbsService simulates ServiceGated; Settle is confluent
     r = ctx.tlc("services", "ServiceGated", cfg="MC_gated_abs.cfg", timeout=3000, workers=W)
     ctx.require_tlc_ok(r, "MC_gated_abs")
-    for cfg in (["MC_confl_nil"] if quick else ["MC_confl_nil", "MC_confl"]):
+    for cfg in ([] if quick else ["MC_confl_quick", "MC_confl_nil", "MC_confl"]):
         r = ctx.tlc("services", "ServiceConfl", cfg=cfg + ".cfg", timeout=3000, workers=W)
         ctx.require_tlc_ok(r, cfg)
     if not quick:
@@ -170,6 +196,10 @@ def run(ctx):
         r = ctx.tlc("services", "Service", cfg="MC_svc_qfull.cfg", timeout=600, workers=4, subst=subst, count=False)
         if r.violated != "QueueNeverFull":
             incon("MC_svc_qfull: expected the witness of a full listener queue, TLC said %r %r" % (r.violated, r.error))
+
+    if "record" not in stages:
+        ctx.inconclusive_note("development run: stages %s only" % sorted(stages))
+        return "model_checking"
 
     # ---- 5. code -> spec: traces of free-running goroutines, validated by TLC
     ntr = 120 if quick else 1500
